@@ -182,6 +182,15 @@ PROPS = {
                 "the module the text is written in) are placed in a grouping and a typedef of b that m uses, directly in m, and on a leaf and on the augment statement of an augment of m written in a2; 3 % use a prefix the textual module does not import "
                 "(though the using module does), 2 % are mutated into syntax errors; compared: the compile verdict, that the error names the statement and quotes the expression, and for every compiled node the expression text and the machine listing with resolved namespaces",
     },
+    "C06": {
+        "streams": {"yconc": {"quick": 600, "thorough": 20000, "race": True}},
+        "trusted": ["the Go race detector (go build -race) observes the executions that happen; it proves nothing about interleavings that did not occur",
+                    "mock xpath.Entry trees are built per run (independent contexts)"],
+        "modelled": ["the Lean machine model is a function of (program, tree): history independence is by construction there; that the real machine behaves like that function after any history and under concurrency is what the stream samples",
+                     "plugin loading (pluginsLoaded / openPlugins) reads a directory that does not exist in the sandbox: the first-call path is exercised, plugin registration is not"],
+        "rule": "2-4 expressions per case (typed scalar expressions over leaf values, location paths with predicates over the recording mock tree); each machine is compiled once and run once in isolation, then 3 more times sequentially, "
+                "then by 4 goroutines x 5 runs each at once while 3 goroutines compile and run the same and other expressions (18 compiles); every result must equal the isolated one and the Lean model's; the harness is built with the race detector and any report fails the batch",
+    },
     "C04": {
         "streams": {"xsmall": {"quick": 1, "thorough": 1, "spec_proj": "accept"},
                     "xfuzz": {"quick": 30000, "thorough": 1000000, "spec_proj": "accept"}},
